@@ -162,10 +162,34 @@ fn main() {
     }
     let mut rng = Rng::new(a.seed);
     for _ in 0..a.n {
-        let ntok = rng.range(2, 6) as i64;
-        let nm = rng.range(1, 8) as usize;
+        let mut ntok = rng.range(2, 6) as i64;
+        let mut nm = rng.range(1, 8) as usize;
         let regime = rng.below(4);
         let mut ms = vec![];
+        let structured = rng.chance(1, 3);
+        if structured {
+            // a cheap chain 0 - 1 - ... - m plus expensive shortcuts: multi-hop routes that beat
+            // short ones (in-place relaxation / DFS pruning are sensitive to exactly this shape);
+            // inserted forwards or backwards so that node indices run with or against the chain
+            let m = rng.range(2, 5) as i64;
+            ntok = m + 1;
+            let mut chain: Vec<Mkt> = (0..m)
+                .map(|i| Mkt { long: i, short: i + 1, cl: Some(rng.below(3) as i64), cs: gen_cost(&mut rng, 0) })
+                .collect();
+            if rng.chance(1, 3) {
+                chain.reverse();
+            }
+            let nshort = rng.range(1, 3);
+            for _ in 0..nshort {
+                let a = rng.below(ntok as u64) as i64;
+                let b = rng.below(ntok as u64) as i64;
+                let mk = Mkt { long: a, short: b, cl: Some(rng.range(3, 15) as i64), cs: gen_cost(&mut rng, 0) };
+                let pos = rng.below(chain.len() as u64 + 1) as usize;
+                chain.insert(pos, mk);
+            }
+            ms = chain;
+            nm = 0;
+        }
         for _ in 0..nm {
             let long = rng.below(ntok as u64) as i64;
             let short = if rng.chance(1, 15) { long } else { rng.below(ntok as u64) as i64 };
@@ -186,8 +210,9 @@ fn main() {
         let source = match rng.below(20) {
             0 => ntok,
             1 => rng.below(ntok as u64) as i64,
+            _ if structured && rng.chance(2, 3) => 0,
             _ => {
-                let m = &ms[rng.below(nm as u64) as usize];
+                let m = &ms[rng.below(ms.len() as u64) as usize];
                 if rng.chance(1, 2) { m.long } else { m.short }
             }
         };
